@@ -1,6 +1,6 @@
 (* C05 — sort: stable ordered permutation, the same under every buffersize.
    mergesort = sort of the concatenation (data path of itermergesort); pass/cache invariance: SortView machine, C11/C01. *)
-From Verif Require Import PyVal Rows ComparableGen AsIndicesGen Sort SortFacts MergesortFacts.
+From Verif Require Import PyVal Rows ComparableGen AsIndicesGen Sort SortFacts MergesortFacts RecastFacts MergesortModel.
 From Coq Require Import Permutation Sorted.
 Open Scope Z_scope.
 
@@ -50,6 +50,19 @@ Theorem C05_mergesort_is_sort_of_cat : forall (reverse : bool) idx (bss : list (
   = (sort_data leb None (concat tabs), None).
 Proof. exact keyed_mergesort_is_sort_of_cat. Qed.
 
+(* ... and for the operator model as a whole: tables sharing a header of pairwise different text fields, rectangular rows,
+   a key the header resolves: mergesort(t1, ..., tn, key, reverse, buffersize) = sort(cat(t1, ..., tn), key, reverse) - the
+   header union, the row standardisation, the per-table sorts and the shortlist merge together *)
+Theorem C05_mergesort_model_is_sort_of_cat : forall (k : val) (reverse : bool) (missing : val) (bs : option nat) (hdr : row)
+    (tabs : list (list row)) (idx : list Z),
+  (forall b, bs = Some b -> (1 <= b)%nat) ->
+  Forall (fun f => hdr_text f = f) hdr -> distinct_names hdr ->
+  asindices hdr k = Ok idx -> idx <> [] ->
+  tabs <> [] -> Forall (Forall (fun r : row => length r = length hdr)) tabs ->
+  mergesort_model (Some k) reverse false missing None bs (map (cons hdr) tabs)
+  = sort_model None reverse (Some k) (hdr :: concat tabs).
+Proof. exact mergesort_model_is_sort_of_cat. Qed.
+
 (* presorted=True: the same loop over inputs that are sorted already *)
 Theorem C05_mergesort_presorted : forall (A : Type) (leb : A -> A -> bool),
   (forall x y, leb x y = true \/ leb y x = true) ->
@@ -89,3 +102,4 @@ Print Assumptions C05_sorted_input_unchanged.
 Print Assumptions C05_header_first.
 Print Assumptions C05_mergesort_is_sort_of_cat.
 Print Assumptions C05_mergesort_presorted.
+Print Assumptions C05_mergesort_model_is_sort_of_cat.
